@@ -11,6 +11,69 @@ CHECKS = {'access', 'frame', 'restore'}
 MINE = ('visibility', 'details', 'file_list_foreign', 'restore_foreign', 'restore_foreign_crash', 'delete_foreign_succeeded', 'delete_foreign_crash', 'refused_delete_mutated', 'unlock', 'unlock_trailing_nul', 'unlock_crash', 'gc_overreach', 'referenced_chunk_missing', 'restore_mismatch', 'exception')
 
 
+def foreign_garbage_probe(ctx, rep):
+    """clean by the holder of an INDEPENDENT key who has garbage of his own, next to another user's chunks, at concurrency 4, with
+    the jobs of every thread pool completing in an order unrelated to their submission order (JitterPool): his garbage goes, the
+    other user's chunks and snapshots stay - whatever is done in parallel inside clean."""
+    import asyncio, contextlib, io, random as _random, shutil as _sh
+    from pathlib import Path
+    import replicat.repository as R
+    from replicat.repository import Repository
+    from harness.memstore import MemBackend
+    from harness.repo_hist import JitterPool, KDF
+    for trial in range(3):
+        wd = Path(ctx.scratch) / f'foreign-garbage-{trial}'
+        (wd / 'a').mkdir(parents=True)
+        (wd / 'a' / 'f').write_bytes(ctx.rng.randbytes(64 * 10))
+        be = MemBackend()
+        out = {}
+
+        async def go():
+            ra = Repository(be, concurrent=4, quiet=True, cache_directory=None)
+            init = await ra.init(password=b'pa', settings={'chunking': {'min_length': 64, 'max_length': 64}, 'hashing': {'name': 'blake2b', 'length': 16},
+                                                           'encryption': {'kdf': dict(KDF)}})
+            rb0 = Repository(be, concurrent=4, quiet=True, cache_directory=None)
+            kb = (await rb0.add_key(password=b'pb', settings={'encryption': {'kdf': dict(KDF)}}, shared=False)).new_key
+            ra2 = Repository(be, concurrent=4, quiet=True, cache_directory=None)
+            await ra2.unlock(password=b'pa', key=init.key)
+            sa = await ra2.snapshot(paths=[wd / 'a'])
+            rb = Repository(be, concurrent=4, quiet=True, cache_directory=None)
+            await rb.unlock(password=b'pb', key=kb)
+            garbage = [rb._chunk_digest_to_location(ctx.rng.randbytes(16)) for _ in range(9)]
+            for g in garbage:
+                be.objects[g] = b'garbage of an interrupted snapshot'
+            alice = {ra2._chunk_digest_to_location(d) for d in sa.chunks}
+            await rb.clean()
+            out['alice_lost'] = sorted(alice - set(be.objects))
+            out['garbage_left'] = [g for g in garbage if g in be.objects]
+            out['snap_lost'] = sa.location not in be.objects
+        saved = R.ThreadPoolExecutor
+        JitterPool.rng = _random.Random(ctx.rng.randint(0, 2 ** 31))
+        R.ThreadPoolExecutor = JitterPool
+        try:
+            with contextlib.redirect_stdout(io.StringIO()), contextlib.redirect_stderr(io.StringIO()):
+                asyncio.run(asyncio.wait_for(go(), 120))
+        except Exception as e:
+            out['error'] = f'{type(e).__name__}: {str(e)[:100]}'
+        finally:
+            R.ThreadPoolExecutor = saved
+        _sh.rmtree(wd, ignore_errors=True)
+        rep.case(('foreign-garbage', trial), nontrivial=True)
+        rep.count('foreign_garbage_probe')
+        replay = {'probe': 'foreign_garbage'}
+        if out.get('error'):
+            rep.violations.append({'what': 'clean by an independent-key holder with garbage of his own failed: ' + out['error'], 'signature': {'kind': 'exception', 'probe': 'foreign_garbage'}, 'replay': replay})
+        elif out['alice_lost'] or out['snap_lost']:
+            rep.violations.append({'what': f'clean by the holder of an independent key removed {len(out["alice_lost"])} chunk(s) of another user\'s snapshot (9 garbage chunks of his own next to '
+                                           f'10 foreign ones, concurrency 4, pool jobs completing out of order); {len(out["garbage_left"])} of his own garbage chunks were kept',
+                                   'signature': {'kind': 'gc_overreach', 'probe': 'foreign_garbage'}, 'replay': replay})
+            return
+        elif out['garbage_left']:
+            rep.violations.append({'what': f'clean left {len(out["garbage_left"])} of the caller\'s own garbage chunks (independent key, foreign chunks present, concurrency 4)',
+                                   'signature': {'kind': 'gc_incomplete_own', 'probe': 'foreign_garbage'}, 'replay': replay})
+            return
+
+
 CLI_MINE = ('snapshot_not_listed', 'exception', 'hang', 'snapshot_unreadable', 'snapshot_objects', 'snapshot_name', 'visibility', 'details', 'file_list_foreign', 'restore_foreign', 'restore_foreign_crash', 'delete_foreign_succeeded', 'refused_delete_mutated', 'shared_secrets_differ', 'independent_secrets_equal', 'key_unusable', 'gc_overreach')
 
 
@@ -20,6 +83,7 @@ def _run(ctx, n, nops, rep, concurrent=None):
                         concurrent=concurrent or ctx.rng.choice([1, 2, 4]), delay=0.001, encrypted=True)
     rep.violations[:] = [v for v in rep.violations if v['signature']['kind'] in MINE]
     # the same property through the tool as a user runs it: fresh `python -m replicat` processes, a repository on disk, real faults
+    foreign_garbage_probe(ctx, rep)
     cli_hist.run_scenarios(ctx, rep, {'plain': ctx.scale(6, 60)}, CLI_MINE, encrypted=True)
     cli_hist.termination_probe(ctx, rep, {'delete'})
 
@@ -41,6 +105,12 @@ def replay(ctx, obj):
     rc = cli_hist.replay_cli(ctx, obj, CLI_MINE)
     if rc is not None:
         return rc
+    if (obj.get('replay') or {}).get('probe') == 'foreign_garbage':
+        rep = Report(rule=RULE)
+        foreign_garbage_probe(ctx, rep)
+        for v in rep.violations:
+            print('VIOLATION-REPRODUCED', v['what'])
+        return 1 if rep.violations else 0
     rep = Report(rule=RULE)
     seed = (obj.get('replay') or {}).get('seed')
     if seed is None:
